@@ -22,7 +22,7 @@ LEVEL_TEXT = ("Random histories of 60-400 operations (add_row, read, repr/str, d
               "(observed map applied to the recorded draws), every other attribute and the generator state are checked; the innovation of every row is recovered from the observed row and must be a fresh run of the object's own stream (650-row runs). Stability: "
               "rho(F) < 1, decay of a constant offset and the Stein residual for the observed (A, B) down to pixel scales of 1.6e-5 L0 (below 1e-5 L0: known finding), contraction with zero innovations from hostile screens "
               "(constant 1e6, checkerboard, spike, noise) for 200-2000 rows, finiteness for 1000-5000 rows with innovations. 'However many "
-              "rows' is restated as this bounded progress. Exploration over histories.")
+              "rows' is restated as this bounded progress. Histories also run on screens that ask for more stencil columns than they have rows (1-8 pixels). Exploration over histories.")
 LEVEL_NOTE = "Trusted: aomon/oracles/vk.py, NumPy eigenvalues. Stability is claimed (and checked) for the von Karman variant only."
 RULE = "case = (variant, requested size, parameters, history seed) or stability configuration; non-trivial when the history has >= 10 add_row steps; distinct by parameters and history seed"
 ASSUMPTIONS = ["reads are .scrn, repr(), str(), copy.deepcopy(obj).scrn"]
